@@ -234,6 +234,9 @@ pub struct World {
     /// eager: every gate opens the moment it is created
     pub eager: bool,
     pub interactions: usize,
+    /// interactions since this life's state machine was built, and whether it exceeded RUNAWAY_INTERACTIONS
+    pub life_interactions: usize,
+    pub runaway: bool,
     pub crash_at: Option<usize>,
     pub crashed: bool,
     pub storage: StorageModel,
@@ -243,6 +246,9 @@ pub struct World {
     pub http_n: usize,
     pub last_timing: Option<CheckTiming>,
 }
+
+/// no generated life comes near this many environment interactions (a few hundred at most)
+pub const RUNAWAY_INTERACTIONS: usize = 50_000;
 
 impl World {
     pub fn new(script: Script) -> World {
@@ -259,6 +265,8 @@ impl World {
             gates: vec![],
             eager: true,
             interactions: 0,
+            life_interactions: 0,
+            runaway: false,
             crash_at: None,
             crashed: false,
             storage,
@@ -274,10 +282,17 @@ impl World {
     }
     /// Count one environment interaction; returns true if the process "dies" here.
     fn interact(&mut self, advances_clock: bool) -> bool {
-        if self.crashed {
+        if self.crashed || self.runaway {
             return true;
         }
         self.interactions += 1;
+        // a state machine that keeps calling its environment without ever finishing a check (an unbounded retry loop)
+        // would otherwise spin inside one poll for ever: park it and let the driver report the run as not terminating
+        self.life_interactions += 1;
+        if self.life_interactions > RUNAWAY_INTERACTIONS {
+            self.runaway = true;
+            return true;
+        }
         if self.crash_at == Some(self.interactions) {
             self.crashed = true;
             self.log.push(Op::Crash { at: self.interactions });
@@ -1021,7 +1036,12 @@ impl HttpRequest for SimHttp {
                 let mut g = lock(&w);
                 let n = g.http_n;
                 g.http_n += 1;
-                let spec = g.script.http.get(g.cur.http).cloned().unwrap_or(HttpSpec::Resp(RespSpec {
+                let scripted = match g.script.http.get(g.cur.http) {
+                    Some(s) => Some(s.clone()),
+                    None if g.script.repeat_last_http => g.script.http.last().cloned(),
+                    None => None,
+                };
+                let spec = scripted.unwrap_or(HttpSpec::Resp(RespSpec {
                     status: 200,
                     retry_after: vec![],
                     retry_after_name_case: 0,
